@@ -21,7 +21,7 @@ def r_C17eval(root):
     for need in ("ModelRepository", "GlobalModelRepository"):
         if need not in cds: raise AnalysisError("scoping/__init__.py: class %s not found" % need)
     fns = {f.name: f for f in t.body if isinstance(f, ast.FunctionDef)}
-    env = {"__classdefs__": cds, "__functions__": fns, "__module__": None, "abspath": pyeval.PyFn(lambda p: p if p.startswith("/") or p.startswith("anonymous") or p.startswith("builtin") else "/cwd/" + p),
+    env = {"__classdefs__": cds, "__functions__": fns, "__module__": None, "abspath": pyeval.PyFn(lambda p: p if p.startswith("/") else "/cwd/" + p),
            "exists": pyeval.PyFn(lambda p: True), "join": pyeval.PyFn(lambda *a: "/".join(a)), "get_metamodel": pyeval.PyFn(lambda m: m.get("._tx_metamodel")),
            "metamodel_for_file_or_default_metamodel": pyeval.PyFn(lambda f, mm: mm)}
     def call(o, meth, *a, **k):
@@ -81,7 +81,7 @@ def r_C17eval(root):
     anon1 = HS({".kind": "model", "._tx_filename": None}); anon2 = HS({".kind": "model", "._tx_filename": None})
     k1, n1 = call(repo, "update_model_in_repo_based_on_filename", anon1); k1b, n1b = call(repo, "update_model_in_repo_based_on_filename", anon1); k2, n2 = call(repo, "update_model_in_repo_based_on_filename", anon2)
     allm = table(repo.get(".all_models"))
-    rep("C17.m", "models without file name get one invented name each", k1 == k1b == k2 == "ret" and n1 == n1b and n1 != n2 and (allm or {}).get(n1) is anon1 and (allm or {}).get(n2) is anon2, "two string-loaded models registered in the repository get the names %r (again: %r) and %r: each model one stable name of its own" % (n1, n1b, n2))
+    rep("C17.m", "models without file name get one invented name each", k1 == k1b == k2 == "ret" and n1 == n1b and n1 != n2 and (allm or {}).get(n1) is anon1 and (allm or {}).get(n2) is anon2 and anon1["._tx_filename"] is None and anon2["._tx_filename"] is None, "two string-loaded models registered in the repository get the names %r (again: %r) and %r and afterwards carry the file names %r / %r; documented: each model one stable invented name of its own as repository key only - the model itself keeps _tx_filename None (error messages must not name a file that does not exist)" % (n1, n1b, n2, anon1["._tx_filename"], anon2["._tx_filename"]))
     k, _ = call(repo, "remove_model", anon1)
     allm = table(repo.get(".all_models"))
     rep("C18.j", "a model without file name is removed too", k == "ret" and not any(m_ is anon1 for m_ in (allm or {"x": anon1}).values()) and any(m_ is anon2 for m_ in (allm or {}).values()), "after remove_model(<string-loaded model>) the model is %s in all_models (documented: removed - a failed load of a model given as a string must not stay cached and marked as under construction)" % ("still" if any(m_ is anon1 for m_ in (allm or {}).values()) else "no longer"), witness="model_from_str with an unresolvable reference and global_repository=True, then the corrected text")
